@@ -28,7 +28,7 @@ sec = f'''
 ## 8. Seeded changes and which checks catch them
 
 Procedure. Fresh sub-agents received **only the text of one property** (title, statement, scope,
-anchor file names; `tools/seed_prompt.py`, for the `_b` wave plus one sentence naming the code
+anchor file names; `tools/seed_prompt.py`, for the `_b` seeds plus one sentence naming the code
 site of the `_a` change to avoid) and a scratch worktree of `/repo`; nothing from `/verif`. Each
 returned a small source change, a demonstration program judging against an independent
 expectation, and a `meta.json`. Every change was then confirmed here (`tools/verify_seed.sh`;
@@ -41,8 +41,8 @@ time; `tools/try_seed.sh <seed dir> quick <ID>` is the apply-to-`/repo` / run / 
 used for the first seeds. S_C03_a and S_C05_a are the same patch, found independently.
 
 Result: **all {n} seeded changes are caught by the quick tier of the check of the property they
-target**. Three needed a strengthening of a check first (recorded below); after it they are caught
-on every run (the exploration is deterministic and exhaustive, so "caught once" means "caught
+target**. Six needed a strengthening of a check first (recorded below; the table marks them "after
+strengthening"); after it they are caught on every run (the exploration is deterministic and exhaustive, so "caught once" means "caught
 always").
 
 | seed | breaks | change | needs | suite with change | demo without / with | caught by (quick tier) | not visible to |
@@ -64,6 +64,22 @@ Strengthenings triggered by seeds.
 * S_C16_a (transposed tangent in `qr_r_jvp`) is caught by the kernel cases (`R^T R` derivative) and
   the exact-rank lattice; on the full-rank lattice its effect is, by construction of the
   counterfactual, attributed to known finding F6a - which is why the kernel part exists.
+* S_C01_b (the rtol reference of `error_residual_std` uses the first-derivative coefficient instead of
+  the state) was missed by C01 at first: every problem of its catalogue had |u'| ~ |u|, for which the
+  two references are of the same size. The catalogue now contains the damped rotation with time
+  rescaled by 4096 (a power of 4, so the rescaling is exact in binary arithmetic and the unchanged tree
+  reproduces the O(1)-time-scale results); with the change the error is 48 .. 170 x tolerance there.
+  C07 (estimator formula) catches the same change directly.
+* S_C14_b (`error_norm_rms_then_scale` without the 1/sqrt(size)) needs an adaptive dense-vs-isotropic
+  comparison with the non-default error norm; C14's adaptive part used the default estimator only and
+  now enumerates {residual, state} estimators x both error norms (d = 2; thorough also d = 3). C07
+  catches it too (norm formula).
+* S_C16_b (stop-gradient of the dynamic scale guarded by `re_linearize_after_calibration`) needs
+  `solver_dynamic(stop_gradient_through_calibration=False, re_linearize_after_calibration=True)`;
+  C16's lattice only had the default `re_linearize_after_calibration=False`. The calibration axis of
+  C16 is now {none, mle, dynamic, dynamic_relin}; on the unchanged tree every mismatch of the new cases
+  is explained by the counterfactual (known finding F6a), with the change the output-scale derivative
+  is 0 with and without the exact QR derivative -> VIOLATION.
 * "not visible to" lists other properties' checks that were also tried: S_C03_a does not change the
   time-series loss (C12 only needs mutually consistent conditionals), S_C05_b is outside C04's
   lattice (no dynamic-scale interpolation), S_C09_b / S_C11_b do not touch what C02 exercises.
